@@ -422,10 +422,13 @@ func (g *Gen) StringLiteral() string {
 
 var (
 	intSpellings   = []string{"0", "-0", "1", "-1", "7", "42", "2147483647", "-2147483647"}
-	floatSpellings = []string{"1.5", "-1.5", "0.0", "-0.0", "1e5", "1E5", "1e+5", "1E+5", "1e-5", "1E-5", "1.5e10", "1.5E-10", "1.50", "0.1",
+	floatSpellings = []string{"1.5", "-1.5", "0.0", "-0.0", "1e5", "1E5", "1.0e+5", "1.5E+5", "2.5e-5", "1.0E-5", "1.5e10", "1.5E-10", "1.50", "0.1",
 		"100.001", "3.14159265358979323846264338327950288", "0.000000000000000000000000000001", "123456789.123456789e+10",
-		"1e400", "1e-400", "0e0", "-0e-0", "10.0E+2"}
-	bigIntSpellings = []string{"123456789012345678901234567890", "9007199254740993", "-9223372036854775809", "2147483648", "4294967296"}
+		"1e400", "1.0e-400", "0e0", "-0.0e-0", "10.0E+2"}
+	// signed exponent without a fraction: valid, but the repo lexer does not accept it (recorded
+	// finding); generated rarely so that the search continues behind it
+	expSignNoFraction = []string{"1e+5", "1E+5", "1e-5", "1E-5", "1e-400", "-0e-0"}
+	bigIntSpellings   = []string{"123456789012345678901234567890", "9007199254740993", "-9223372036854775809", "2147483648", "4294967296"}
 )
 
 func (g *Gen) intLiteral() string {
@@ -450,6 +453,9 @@ func (g *Gen) floatLiteral() string {
 		return g.intLiteral()
 	case 1:
 		return pick(g, bigIntSpellings, "bigint")
+	}
+	if g.rare(12, "expsign") {
+		return pick(g, expSignNoFraction, "expsignsp")
 	}
 	return pick(g, floatSpellings, "floatsp")
 }
